@@ -132,6 +132,12 @@ func escapes(v ssa.Value) bool {
 func ruleIOErr(p *Prog, r *RuleResult) {
 	n := 0
 	var k keyer
+	batchFns := map[*ssa.Function]bool{}
+	for _, owner := range []string{"Writer", "Reader"} {
+		if f := p.MethodOpt("io", owner, "processBlock"); f != nil {
+			batchFns[f] = true
+		}
+	}
 	for _, f := range p.ModFns {
 		rel := p.Rel(f)
 		if rel != "io" && rel != "bitstream" && rel != "app" {
@@ -175,6 +181,10 @@ func ruleIOErr(p *Prog, r *RuleResult) {
 				if rn := namedOf(callee.Signature.Recv().Type()); rn != nil && (rn.Obj().Name() == "Reader" || rn.Obj().Name() == "Writer") {
 					what = "compressed-stream " + rn.Obj().Name() + "." + callee.Name()
 				}
+			} else if callee := c.StaticCallee(); callee != nil && rel == "io" && batchFns[callee] {
+				// the batch function of the Writer/Reader: whatever calls it (Write, Read, Close - or a new entry point
+				// such as a WriteTo fast path) must look at its error on every path
+				what = "batch function " + callee.Name()
 			} else if callee := c.StaticCallee(); callee != nil && p.Rel(callee) == "bitstream" {
 				flushFn := p.MethodOpt("bitstream", "DefaultOutputBitStream", "flush")
 				refillFn := p.MethodOpt("bitstream", "DefaultInputBitStream", "readFromInputStream")
